@@ -17,6 +17,7 @@
 
 #include "misc.h"
 #include <jose/b64.h>
+#include <jose/jwe.h>
 #include <string.h>
 #include <openssl/rand.h>
 
@@ -224,4 +225,13 @@ constructor(void)
     OpenSSL_add_all_algorithms();
 #endif
     RAND_poll();
+}
+
+bool
+shared_hdr_has(const json_t *jwe, const char *name)
+{
+    json_auto_t *hdr = NULL;
+
+    hdr = jose_jwe_hdr(jwe, NULL);
+    return !hdr || json_object_get(hdr, name);
 }
